@@ -53,7 +53,7 @@ CHECKS["C06"] = {
 		"coverage = specification (flip first, then swap), lookup(T(p)) = p, stream coordinate map = T, stream request box = T^-1 of the requested box, for every level, box and tile; a SAT model is replayed on the real reader over an asymmetric echo source. "
 		"(3) CBMC on the geographic box -> tile box conversion (TileBBox::from_geo / TileCoord2::from_geo, one axis and one zoom per instance, every f64 bit pattern of a valid box, incl. the antimeridian and the 1e-6 guard). "
 		"The flip+swap defect needs both flags and an asymmetric coordinate: no test has it, the solver finds it.",
-	"note": "The async converting reader itself is out of reach for CBMC (5-38 GB, no verdict), hence Engine B for the lookup / stream paths; flags handed to a helper as arguments are not resolved by the walker (such a path is extracted without its transforms: a counterexample is then only reported if the native replay confirms it). "
+	"note": "The async converting reader itself is out of reach for CBMC (5-38 GB, no verdict), hence Engine B for the lookup / stream paths (helper functions and inherent methods of the crate are descended into, flag identities are carried through their parameters; a counterexample is only reported if the native replay confirms it). "
 		"Outside: payloads on the lookup/stream path (C04), writers (C01), CLI glue in convert.rs/serve.rs, tan/ln by a monotone model in the latitude harnesses.",
 	"technique": BMCT + "; plus symbolic encoding of the compiler's MIR (nightly -Zunpretty=mir -> SMT-LIB2), z3 / cvc5, for the async lookup and stream paths",
 }
